@@ -70,6 +70,17 @@ Terminal(kind, names) ==
 Linear(names) == [Plain(names) EXCEPT !.edges = {Edge(i, i + 1, "") : i \in 1..(Len(names) - 1)}]
 IgCircular(names) == [Linear(names) EXCEPT !.edges = @ \cup {Edge(1, Len(names), "circle")}]
 
+\* which alphabet a .fasta / .ig file uses is said by its comment lines: the words DNA, RNA, PROTEIN, spelled exactly so, anywhere
+\* in the text; other spellings ("internal", "ssdna", "Protein") say nothing.  hdr = the comment text as a sequence of characters.
+HasWord(h, w) == \E x \in 1..(Len(h) - Len(w) + 1) : SubSeq(h, x, x + Len(w) - 1) = w
+KwDNA == <<"D", "N", "A">>
+KwRNA == <<"R", "N", "A">>
+KwAA  == <<"P", "R", "O", "T", "E", "I", "N">>
+HdrKinds(h) == {kw \in {"DNA", "RNA", "PROTEIN"} : HasWord(h, CASE kw = "DNA" -> KwDNA [] kw = "RNA" -> KwRNA [] kw = "PROTEIN" -> KwAA)}
+\* domain of the check: exactly one of the three words occurs; the record's kind is then READ FROM THE HEADER, not believed
+HdrKind(i) == IF "hdr" \in DOMAIN i /\ Cardinality(HdrKinds(i.hdr)) = 1 THEN CHOOSE kw \in HdrKinds(i.hdr) : TRUE ELSE i.kind
+WithHdrKind(i) == IF "hdr" \in DOMAIN i THEN [i EXCEPT !.kind = HdrKind(i)] ELSE i
+
 ExpFile(i) == IF i.circ THEN IgCircular(Translate(i.kind, i.toks))
                         ELSE Linear(Terminal(i.kind, Translate(i.kind, i.toks)))
 \* the statement leaves the terminal name of a one-nucleotide strand open
